@@ -98,8 +98,9 @@ CFG = {
                   'implementation not exact" is a violation. The clause is FALSE as a statement about all powers of two: beyond '
                   'the binary64 range it fails on in-domain waveforms (k = 500: the sum of squared residuals overflows, every '
                   'grid point has residual +inf and the EMPTY vector comes back; k = -1000: samples underflow) - a limitation of '
-                  'floating point; for amplitudes 1..1e4 the predicate was true on every generated case with |k| <= 440 and on '
-                  'most up to 490. The event-level clause (no time, wire or z changes; both amplitudes scale) goes through the '
+                  'floating point; for in-domain waveforms (amplitudes 1..1e4) the runner REQUIRES the predicate to be true on every generated '
+                  'case with |k| <= 400 (a false predicate there is reported: the theorem would be vacuous where it matters) and '
+                  'false beyond 500; between 400 and 500 either. The event-level clause (no time, wire or z changes; both amplitudes scale) goes through the '
                   'Cholesky solve and the pad centroid, which are outside the model: measured on the implementation '
                   '(rel17event), exact for every k of -475..=495 on the scanned events incl. multi-wire blocks. '
                   'Multi-wire blocks (Cholesky of the cross-talk matrix) are outside the model; shape, finiteness, sign, '
